@@ -28,6 +28,14 @@ base and Chinese):
   C09.numeric-order  per culture, under the default configuration, the first pattern of date_regex_list that can read a bare
                 `a/b` / `a-b` (no look-behind context) has the day/month group order the culture declares
                 (DefaultLanguageFallback); dotted layouts are fixed by the Specs and only observed.
+  C09.numeric-priority  where the extractor configuration takes a day-first flag (it models both orders), every year-less
+                `a/b` / `a-b` that layouts of both orders can span - as written or behind the parser's date token prefix, the
+                two attempts of parse_basic_regex_match - is first spanned, in list order, by a layout of the declared order
+                under the default and by a day-first layout under the flag (the list is evaluated from __init__, the patterns
+                are matched concretely).
+  C09.day-guard  the guard BaseDateExtractor.number_with_month puts on the day number parsed next to a month (guard clauses /
+                wrapping condition on that number alone, at the top level of the loop) is tabulated over -2..40 from the test as
+                written and lets every calendar day 1..31 through.
 """
 import ast
 
@@ -44,7 +52,9 @@ META = {
             'which surface layouts reach which function, the TIMEX strings, other cultures\' month/weekday tables. Kinds are '
             'inferred inside one function; a datetime parameter is assumed to carry a time of day (recognize_datetime passes '
             'the caller\'s reference unchanged). The same comparison shape in day-only branches ("on the 12th", a single '
-            'number, Chinese this-month forms) is outside the property\'s quantifier and reported as observations only.',
+            'number, Chinese this-month forms) is outside the property\'s quantifier and reported as observations only. '
+            'The priority among competing year-less numeric layouts is armed only where the configuration takes a day-first '
+            'flag (English); the day guard of number_with_month is read at the top level of its loop only.',
     'technique': 'intra-procedural, flow-sensitive abstract interpretation over ast (kinds DateOnly / DateTime / unknown, '
                  'join at control-flow merges), path conditions from if/else chains, linear shift extraction '
                  '(year +- k, timedelta(weeks/days), datedelta, replace(year=..)), dataflow to future_value/past_value',
@@ -744,7 +754,7 @@ BUILTINS = {'int': int, 'str': str, 'len': len, 'abs': abs, 'min': min, 'max': m
             'datetime': _dt.datetime, 'timedelta': _dt.timedelta, 'list': list, 'tuple': tuple, 'range': range}
 DT_METHODS = {'isoweekday', 'weekday', 'replace', 'date', 'isocalendar', 'toordinal'}
 TD_KW = {'days', 'weeks', 'hours', 'minutes', 'seconds'}
-CONCRETE = (int, bool, str, type(None), _dt.datetime, _dt.timedelta, _dt.date, list, tuple, float, dict)
+CONCRETE = (int, bool, str, type(None), _dt.datetime, _dt.timedelta, _dt.date, list, tuple, float, dict, range)
 STR_METHODS = {'startswith', 'endswith', 'split', 'join', 'strip', 'lstrip', 'rstrip', 'lower', 'upper', 'replace', 'find',
                'isnumeric', 'isdigit', 'format', 'count', 'index'}
 DICT_METHODS = {'pop', 'get', 'keys', 'values', 'items', 'update', 'setdefault'}
@@ -1529,6 +1539,256 @@ def rule_numeric_order(chk, idx):
 
 
 # ---------------------------------------------------------------------------------------------------
+# C09.numeric-priority: a configuration that models both day/month orders (day-first flag) gives priority, among the year-less
+# numeric layouts competing for the same text, to the order in force - tabulated as parse_basic_regex_match reads the text
+
+PRIORITY_PROBES = ('5/6', '5-6', '11-12', '05/06')
+PRIORITY_CONTROL = (r'(?<=\bon\s+)(?<day>\d{1,2})[\\\-](?<month>\d{1,2})\b', r'(?<=\bon\s+)(?<month>\d{1,2})[\-\.](?<day>\d{1,2})\b')
+
+
+def spanning_readings(c06, patterns, prefix, text):
+    """[(position in the list, label, 'day-first'|'month-first', month, day)] of every regex of the ordered list that spans the
+    text the way BaseDateParser.parse_basic_regex_match requires (as written, else behind the date token prefix); the first
+    element is the reading the parser takes.  A pattern the regex reader cannot translate is an AnalysisError here: whether it
+    comes first is exactly what the rule decides."""
+    out = []
+    for i, pat in enumerate(patterns):
+        pp = c06.PyPattern(str(pat))            # rx.RxError when the dialect reader cannot translate it: handled by the caller
+        r = None
+        for s2, off in ((text, 0), (prefix + text, len(prefix))):
+            m_ = pp.re.search(s2)
+            if m_ and m_.start() == off and m_.end() == len(s2):
+                r = (getattr(pat, 'attr', '?'), pp.group(m_, 'month'), pp.group(m_, 'day'))
+            if m_:
+                break
+        if r is None:
+            continue
+        label, month, day = r
+        if not month or not day:
+            continue                    # spans the text without a numeric month and day (not a competing numeric layout)
+        m, d = str(month).lstrip('0'), str(day).lstrip('0')
+        a, b = [x.lstrip('0') for x in text.replace('/', '-').split('-')]
+        if (m, d) == (a, b) and a != b:
+            order = 'month-first'
+        elif (d, m) == (a, b) and a != b:
+            order = 'day-first'
+        else:
+            raise AnalysisError('numeric layout %s reads %r as month %r, day %r: neither order' % (label, text, month, day))
+        out.append((i, label, order, month, day))
+    return out
+
+
+def rule_numeric_priority(chk, idx):
+    from ..consteval import Resources
+    from .. import rx
+    from . import c06 as _c06
+    rid = 'C09.numeric-priority'
+    chk.rule(rid, 'where a date extractor configuration takes a day-first flag, a year-less `a/b` / `a-b` that layouts of both '
+                  'orders can span (as written or behind the date token prefix) is first spanned, in list order, by a layout of '
+                  'the declared order (DefaultLanguageFallback) under the default and by a day-first layout under the flag',
+             floor=2, control=True)
+    # control: the detector on an embedded list whose day-first prepositional layout precedes the month-first one
+    try:
+        ctl = [_c06._ResStr(p, 'Control', n_) for p, n_ in zip(PRIORITY_CONTROL, ('DayFirst', 'MonthFirst'))]
+        r0 = spanning_readings(_c06, ctl, 'on ', '5-6')
+        r1 = spanning_readings(_c06, ctl[::-1], 'on ', '5-6')
+        chk.control(rid, [x[2] for x in r0] == ['day-first', 'month-first'] and [x[2] for x in r1] == ['month-first', 'day-first']
+                    and not spanning_readings(_c06, ctl, '', '5-6'))
+    except rx.RxError:
+        chk.control(rid, False)
+    R = Resources(idx)
+    W = _c06.Wiring(idx, R)
+    ex_cfgs = W.culture_classes(PKG + '.base_date.DateExtractorConfiguration')
+    dp_cfgs = W.culture_classes(PKG + '.base_date.DateParserConfiguration')
+    judged = 0
+    for cul in sorted(ex_cfgs):
+        c = ex_cfgs[cul]
+        k_, init = idx.find_method(c, '__init__')
+        if init is None:
+            continue
+        params = [a.arg for a in init.args.args[1:]]
+        flagged = [p for p in params if 'dmy' in p.lower()]
+        if not flagged:
+            chk.observe('%s: no day-first flag - the priority among its year-less numeric layouts is fixed by the Specs of the '
+                        'culture (prepositional month-first layouts such as `il 4-22`), not armed' % c.name)
+            continue
+        if len(params) != len(flagged):
+            raise AnalysisError('%s.__init__ takes %s besides its day-first flag: the configuration cannot be evaluated per flag'
+                                % (c.name, sorted(set(params) - set(flagged))))
+        if cul not in dp_cfgs:
+            raise AnalysisError('no DateParserConfiguration subclass for culture %s' % cul)
+        pv = W.resolve(dp_cfgs[cul], 'date_token_prefix')
+        if not (pv and len(pv) == 1 and isinstance(pv[0].value, str)):
+            raise AnalysisError('%s.date_token_prefix does not evaluate to one string' % dp_cfgs[cul].name)
+        prefix = pv[0].value
+        chk.consulted(c.mod.path)
+        for flag in (False, True):
+            lst = _c06.ordered_date_regexes(idx, W, c, flag)        # AnalysisError when the list cannot be evaluated
+            declared = None
+            for x in lst:
+                rc = getattr(x, 'rcls', None)
+                vals = R.by_name(c.mod, rc) if rc else None
+                if vals and isinstance(vals.get('DefaultLanguageFallback'), str):
+                    declared = vals['DefaultLanguageFallback']
+                    break
+            if flag:
+                want, why = 'day-first', 'day-first flag set'
+            elif declared in ('DMY', 'MDY'):
+                want, why = ('day-first' if declared == 'DMY' else 'month-first'), 'default, declared %s' % declared
+            else:
+                raise AnalysisError('%s: DefaultLanguageFallback %r is neither DMY nor MDY' % (c.name, declared))
+            for probe in PRIORITY_PROBES:
+                try:
+                    rs = spanning_readings(_c06, lst, prefix, probe)
+                except rx.RxError as e:
+                    raise AnalysisError('%s: a pattern of the date regex list cannot be read (%s)' % (c.name, e))
+                construct = '%s.date_regex_list[%r, %s]' % (c.name, probe, why)
+                offered = sorted({r[2] for r in rs})
+                if len(offered) < 2:
+                    chk.exempt(rid, c.mod.path, construct, 'no competition: layouts spanning this text offer %s'
+                               % (offered[0] + ' only' if offered else 'no reading'), 'offered: %s' % (', '.join(offered) or 'none'),
+                               init.lineno)
+                    continue
+                judged += 1
+                first = rs[0]
+                rival = next(r for r in rs if r[2] == want) if first[2] != want else None
+                chk.judge(first[2] == want, rid, c.mod.path, construct,
+                          'want %s; offered day-first, month-first; first spanning layout is %s' % (want, first[2]),
+                          '%s (%s): %r - as written or behind the date token prefix %r - is first spanned by %s (position %d of '
+                          'date_regex_list), a %s layout reading month %s, day %s; the %s layout %s comes later (position %d). '
+                          'parse_basic_regex_match takes the first regex that spans the text, so the year-less date resolves to '
+                          'the wrong month/day'
+                          % (c.name, why, probe, prefix, first[1], first[0] + 1, first[2], first[3], first[4], want,
+                             rival[1] if rival else '', rival[0] + 1 if rival else 0), init.lineno)
+    if judged < 2:
+        raise AnalysisError('C09.numeric-priority: only %d competing year-less numeric layouts could be decided' % judged)
+
+
+# ---------------------------------------------------------------------------------------------------
+# C09.day-guard: the extractor's guard on a spelled-out / numeric day next to a month lets every calendar day through
+
+DAY_GUARD_CONTROL = '''
+def number_with_month(self, source, reference):
+    for result in self.config.ordinal_extractor.extract(source):
+        num = int(self.config.number_parser.parse(result).value)
+        if num not in range(1, 31):
+            continue
+        ret.append(result)
+    for result in self.config.integer_extractor.extract(source):
+        num = int(self.config.number_parser.parse(result).value)
+        if num < 1 or num > 31:
+            continue
+        ret.append(result)
+'''
+_GUARD_FREE = {'range', 'int', 'abs', 'len', 'min', 'max', 'bool', 'True', 'False', 'None'}
+
+
+def calendar_days():
+    """the day numbers that are valid in some month of some year (computed, not listed)"""
+    out = set()
+    for m in range(1, 13):
+        d = _dt.date(2016, m, 1)
+        while d.month == m:
+            out.add(d.day)
+            d += _dt.timedelta(days=1)
+    return out
+
+
+def day_guards(fn):
+    """[(loop, variable, [(if node, 'reject'|'accept')])] for every loop of fn that binds `v = int(<..number_parser.parse(..)..>)`:
+    the top-level guards of the loop body that decide on v alone.  AnalysisError for a guard on v the rule cannot read."""
+    out = []
+    for loop in ast.walk(fn):
+        if not isinstance(loop, (ast.For, ast.While)):
+            continue
+        var, at = None, None
+        for i, s in enumerate(loop.body):
+            if isinstance(s, ast.Assign) and len(s.targets) == 1 and isinstance(s.targets[0], ast.Name) \
+                    and any(isinstance(x, ast.Attribute) and x.attr == 'number_parser' for x in ast.walk(s.value)) \
+                    and any(isinstance(x, ast.Call) and callee_name(x) == 'parse' for x in ast.walk(s.value)):
+                var, at = s.targets[0].id, i
+                break
+        if var is None:
+            continue
+        guards = []
+        rest = loop.body[at + 1:]
+        for j, s in enumerate(rest):
+            if isinstance(s, ast.Assign) and any(isinstance(t, ast.Name) and t.id == var for t in s.targets):
+                raise AnalysisError('%s: the day number %s is rebound inside the loop (line %d)' % (fn.name, var, s.lineno))
+            if not isinstance(s, ast.If):
+                continue
+            names = {x.id for x in ast.walk(s.test) if isinstance(x, ast.Name)}
+            if var not in names:
+                continue
+            leaves = bool(s.body) and isinstance(s.body[-1], (ast.Continue, ast.Break, ast.Return))
+            if names - {var} - _GUARD_FREE or any(isinstance(x, (ast.Attribute, ast.Subscript)) for x in ast.walk(s.test)):
+                if leaves or j == len(rest) - 1:
+                    raise AnalysisError('%s: the guard `%s` (line %d) on the day number depends on more than the number: it '
+                                        'cannot be tabulated' % (fn.name, ast.unparse(s.test)[:60], s.lineno))
+                continue
+            if leaves and not s.orelse:
+                guards.append((s, 'reject'))
+            elif not leaves and j == len(rest) - 1 and not s.orelse:
+                guards.append((s, 'accept'))          # `if 1 <= num <= 31: <everything else>`
+            else:
+                raise AnalysisError('%s: `if %s` (line %d) tests the day number in a shape that is neither a guard clause nor '
+                                    'a wrapping condition' % (fn.name, ast.unparse(s.test)[:60], s.lineno))
+        out.append((loop, var, guards))
+    return out
+
+
+def guard_accepts(idx, ctx, var, guards, n):
+    for node, mode in guards:
+        it = Interp(idx)
+        try:
+            t = it.eval(node.test, {var: n}, ctx)
+        except (Unreadable, PyRaise) as e:
+            raise AnalysisError('day guard `%s` cannot be evaluated at %d: %s' % (ast.unparse(node.test)[:60], n, e))
+        if isinstance(t, Opaque) or not isinstance(t, (bool, int)):
+            raise AnalysisError('day guard `%s` does not evaluate to a truth value at %d' % (ast.unparse(node.test)[:60], n))
+        if bool(t) == (mode == 'reject'):
+            return False
+    return True
+
+
+def rule_day_guard(chk, idx):
+    rid = 'C09.day-guard'
+    chk.rule(rid, 'the guard BaseDateExtractor.number_with_month puts on the parsed day number, tabulated over -2..40 from the '
+                  'test as written (comparison chain, range()), lets every calendar day 1..31 through', floor=1, control=True)
+    want = calendar_days()
+    ctl_fn = ast.parse(DAY_GUARD_CONTROL).body[0]
+    ctl = []
+    for loop, var, guards in day_guards(ctl_fn):
+        ctl.append(sorted(d for d in want if not guard_accepts(idx, (None, None, ctl_fn), var, guards, d)))
+    chk.control(rid, ctl == [[31], []])
+    bd = idx.cls(PKG + '.base_date.BaseDateExtractor')
+    impls = [c for c in [bd] + idx.subclasses(bd) if 'number_with_month' in c.methods]
+    if bd not in impls:
+        raise AnalysisError('anchor vanished: BaseDateExtractor.number_with_month')
+    for c in impls:
+        fn = c.methods['number_with_month']
+        found = day_guards(fn)
+        if not found:
+            raise AnalysisError('%s.number_with_month: no loop binding a day number from number_parser.parse found' % c.name)
+        chk.consulted(c.mod.path)
+        for k, (loop, var, guards) in enumerate(found, 1):
+            construct = '%s.number_with_month[day number %s%s]' % (c.name, var, '' if len(found) == 1 else ' #%d' % k)
+            acc = {n for n in range(-2, 41) if guard_accepts(idx, (c.mod, c, fn), var, guards, n)}
+            missing = sorted(want - acc)
+            extra = sorted(acc - want)
+            line = guards[0][0].lineno if guards else loop.lineno
+            chk.judge(not missing, rid, c.mod.path, construct,
+                      'calendar days rejected: %s' % (missing or 'none'),
+                      'the guard%s on the day number (%s) rejects the calendar day(s) %s: a month followed or preceded by that day '
+                      'written in words (`march thirty first`) is cut short or not extracted, so the candidates are not those of '
+                      'the stated month/day' % ('s' if len(guards) > 1 else '',
+                                                 '; '.join('`%s`' % ast.unparse(g.test) for g, _ in guards), missing), line)
+            if extra:
+                chk.observe('%s: the day guard also lets %s through (not a calendar day; outside C09\'s quantifier)'
+                            % (construct, extra[:6]))
+
+
+# ---------------------------------------------------------------------------------------------------
 # C09.lookup-case: a dictionary keyed by lower-case words is never asked with text captured as written
 
 STR_SAME = {'strip', 'lstrip', 'rstrip', 'replace', 'format', 'join'}
@@ -1982,6 +2242,8 @@ def run(chk):
     rule_eval_yearless(chk, idx)
     rule_eval_weekday(chk, idx)
     rule_numeric_order(chk, idx)
+    rule_numeric_priority(chk, idx)
+    rule_day_guard(chk, idx)
     rule_lookup_case(chk, idx)
     chk.assume('a parameter annotated `datetime` (the reference) may carry a time of day; DateUtils.safe_create_* with three '
                'date arguments and datetime(y, m, d) yield midnight; DateUtils.this/next/last add whole days')
